@@ -96,7 +96,7 @@ func (w *world) logf(format string, a ...any) {
 
 // Between the creation of the lock directory and the start of its heart-beat a contender must not be held back for
 // long: parking it there for more than two periods of REAL time would make its fresh lock look abandoned (a pause of the
-// process, not an interleaving). The coordinator therefore lets at most three foreign operations in while a contender
+// process, not an interleaving). The coordinator therefore lets at most twelve foreign operations in while a contender
 // is in that window (enough to observe the directory without a heart-beat file) and then lets it finish.
 func (w *world) unparked(op *fsx.Op) bool {
 	return w.isHeartbeat(op)
@@ -410,7 +410,7 @@ func runCase(t ev.T, test string, c Case) (known string) {
 			windowGrants = 0
 		}
 		got := sched.Step(prio, func(client string, _ *fsx.Op) bool {
-			return su == "" || client == su || windowGrants < 3
+			return su == "" || client == su || windowGrants < 12
 		}, 300*time.Millisecond)
 		if su != "" && got != "" && got != su {
 			windowGrants++
